@@ -304,8 +304,14 @@ def isolate_case(check, tier, seed, idx, timeout=180):
         return False, 'isolation run timed out'
     died = r.returncode < 0 or r.returncode >= 100 or 'AddressSanitizer' in r.stderr or 'runtime error:' in r.stderr \
         or 'Fatal Python error' in r.stderr
-    tail = '\n'.join(ln for ln in r.stderr.splitlines() if not ln.startswith('flipjump: flat-storage'))[-3000:]
-    return died, f'rc={r.returncode}\n{tail}'
+    return died, crash_summary(r.returncode, r.stderr)
+
+
+def crash_summary(rc, stderr):
+    lines = [ln for ln in stderr.splitlines() if not ln.startswith('flipjump: flat-storage')]
+    key = [ln.strip() for ln in lines if ('ERROR: AddressSanitizer' in ln or 'runtime error:' in ln or 'SUMMARY:' in ln
+                                          or 'Fatal Python error' in ln or ln.lstrip().startswith(('#0 ', '#1 ', '#2 ')))]
+    return f'rc={rc}; ' + ' | '.join(key[:8]) + '\n' + '\n'.join(lines[-12:])[-1200:]
 
 
 # ------------------------------------------------------------------------------------ findings / replay
